@@ -114,6 +114,8 @@ def replay(ctx, path):
     d = json.load(open(path))
     drv = build(ctx)
     e = d["event"]
+    if e.get("e") == "Fault":
+        return core.replay_fault(ctx, d, drv, "TextUtilTrace", path)
     t = ctx.drive(drv, ["R", call(e["fn"], e["s"], e["a"], e["b"], e["n"])], "replay")
     ctx.report(ctx.judge("TextUtilTrace", [t]))
     return ctx.finish(rule="replay of " + path)
